@@ -25,7 +25,7 @@ META = {
     "comprehensions must raise ValueError; distinct by text; non-trivial = >= 2 if clauses or nesting or a name collision (A), >= 2 "
     "fields with a keyword out of declaration order (B)",
     "assumptions": [
-        "multi-for comprehensions are outside the property; duplicate binding C(1, a=1) and missing required fields are not judged",
+        "multi-for comprehensions are outside the property; missing required fields are not judged",
         "module globals are disjoint from comprehension targets (the collision case is C04's)",
     ],
     "floor_evaluations": {"quick": 4000, "thorough": 100000},
@@ -335,10 +335,15 @@ def ctor_case(ctx, rnd, i):
         rnd.shuffle(kw)
     how = "well-formed"
     if mal:
-        how = rnd.choice(["surplus-positional", "unknown-keyword", "double-star-mapping"])
+        how = rnd.choice(["surplus-positional", "unknown-keyword", "double-star-mapping", "given-twice"])
+        if how == "given-twice" and not (pos and kind != "dataclass-initvar"):
+            how = "unknown-keyword"
         if how == "surplus-positional":
             pos = [astx.parse_expr(f"e.z{j}") for j in range(nf + 1)]
             kw = []
+        elif how == "given-twice":
+            # a field bound by position and again by keyword (python: "multiple values for argument"): a surplus argument
+            kw = [(n, v) for n, v in kw if n != names[0]] + [(names[0], astx.parse_expr("e.again"))]
         elif how == "double-star-mapping":
             # C(e.a, **e.rest): which fields the mapping binds cannot be known - an argument that is not one of the fields
             kw.append((None, astx.parse_expr("e.rest")))
